@@ -103,14 +103,54 @@ Definition nodes_of (policy role : Z) (pods : list (Z * positive * Z)) : list po
                (filter (fun p => placed_status (fst (fst p)) &&
                                  (Z.eqb policy 0 || Z.eqb (snd p) role)) pods)).
 
-(* recovered AllocatedHyperNode of every sub-job (by ascending role) and of the job *)
-Definition recover_all (hn : list (positive * info)) (real : list (positive * list positive))
+(* recovered AllocatedHyperNode of every sub-job (by ascending role) and of the job.
+   [fixed = false] is the code before the repair of finding D8: a sub-job created by a
+   sub-group policy without a topology of its own (policy 1) was skipped although the job
+   itself is constrained, so nothing was recovered for the job either. *)
+Definition recover_all_gen (fixed : bool) (hn : list (positive * info)) (real : list (positive * list positive))
            (policy : Z) (pods : list (Z * positive * Z))
   : list (Z * option positive) * option (option positive) :=
-  let subs := map (fun r => (r, if Z.eqb policy 1 then None
+  let subs := map (fun r => (r, if Z.eqb policy 1 && negb fixed then None
                                 else recover_sub hn real (nodes_of policy r pods)))
                   (zsort (roles_of policy pods)) in
   (subs, recover_job hn (map snd subs)).
+Definition recover_all := recover_all_gen true.
+
+(* ---------- allocate.Recorder (recorder.go): decisions of the job-level candidates ---------- *)
+(* While a job-level candidate HyperNode is tried, the HyperNode chosen for each sub-job is
+   recorded under that candidate; after the commit the records of the selected candidate are
+   applied: AllocatedHyperNode(sub) := LCA(AllocatedHyperNode(sub), recorded).
+   [reset = true] (repair of finding D10): a round starts from an empty record.  Before the
+   repair the records of earlier rounds stayed and were replayed when a later round selected
+   a candidate that an earlier round had only tried. *)
+Definition rec_state := list (positive * list (Z * positive)).
+Definition save_decision (r : rec_state) (cand : positive) (sub : Z) (h : positive) : rec_state :=
+  let cur := match aget cand r with Some l => l | None => [] end in
+  aset cand (zset sub h cur) r.
+
+Definition apply_decisions (hn : list (positive * info)) (allocs : list (Z * option positive))
+           (ds : list (Z * positive)) : list (Z * option positive) :=
+  fold_left (fun acc d =>
+    let cur := match zget (fst d) acc with Some o => o | None => None end in
+    match get_lca hn cur (Some (snd d)) with
+    | Some l => zset (fst d) l acc
+    | None => acc
+    end) ds allocs.
+
+(* one allocation round of a job: the candidates tried (with the sub-job decisions made in
+   each) and the candidate finally selected *)
+Definition round := (list (positive * list (Z * positive)) * positive)%type.
+
+Definition run_round (reset : bool) (hn : list (positive * info))
+           (st : rec_state * list (Z * option positive)) (rd : round) : rec_state * list (Z * option positive) :=
+  let '(r0, allocs) := st in
+  let r1 := if reset then [] else r0 in
+  let r2 := fold_left (fun r try => fold_left (fun r' d => save_decision r' (fst try) (fst d) (snd d)) (snd try) r)
+                      (fst rd) r1 in
+  (r2, apply_decisions hn allocs (match aget (snd rd) r2 with Some l => l | None => [] end)).
+
+Definition run_rounds (reset : bool) (hn : list (positive * info)) (rds : list round) : list (Z * option positive) :=
+  snd (fold_left (run_round reset hn) rds ([], [])).
 
 (* ================= specification ================= *)
 (* the recovered HyperNode of a sub-job holds every node of an allocated-status task and
@@ -286,3 +326,28 @@ Section JobLevel.
     intros h [].
   Qed.
 End JobLevel.
+
+(* ================= the code before the repairs of D8 and D10 ================= *)
+(* D8: leaves h1=[n1] h2=[n2]; hard job, sub-group policy without own topology; one pod
+   Running on n2.  Before the repair nothing was recovered (the pending pod could then be
+   bound under h1); now the job is known to sit in h2. *)
+Lemma d8_recovery_refuted :
+  let '(hn, real) := trace_session 2 [(1%positive, [1]); (1%positive, [1])] in
+  let pods := [(1, 2%positive, 2); (0, 1%positive, 1)] in
+  snd (recover_all_gen false hn real 1 pods) = Some None /\
+  snd (recover_all_gen true hn real 1 pods) = Some (Some 2%positive).
+Proof. vm_compute. split; reflexivity. Qed.
+
+(* D10: leaves h1 h2 h3 under the tier-2 HyperNode h4.  Round 1 tries h2, h3, h1 for sub-job
+   1 and commits h3; round 2 tries h3, h1, h2 for sub-job 2 and commits h2.  Before the
+   repair the stale record "sub-job 1 -> h2" of round 1 was replayed: sub-job 1 ended at
+   LCA(h3, h2) = h4 (tier 2) although its pods never left h3. *)
+Lemma d10_stale_decision_refuted :
+  let '(hn, _) := trace_session 2 [(1%positive, [1; 1; 1]); (1%positive, [2]); (1%positive, [1])] in
+  let rounds : list round :=
+    [ ([(2%positive, [(1, 2%positive)]); (3%positive, [(1, 3%positive)]); (1%positive, [(1, 1%positive)])], 3%positive);
+      ([(3%positive, [(2, 3%positive)]); (1%positive, [(2, 1%positive)]); (2%positive, [(2, 2%positive)])], 2%positive) ] in
+  zget 1 (run_rounds false hn rounds) = Some (Some 4%positive) /\
+  zget 1 (run_rounds true hn rounds) = Some (Some 3%positive) /\
+  zget 2 (run_rounds true hn rounds) = Some (Some 2%positive).
+Proof. vm_compute. repeat split; reflexivity. Qed.
